@@ -663,7 +663,8 @@ func builtin_ord(self, obj py.Object) (py.Object, error) {
 	case py.String:
 		size = len(x)
 		rune, runeSize := utf8.DecodeRuneInString(string(x))
-		if size == runeSize && rune != utf8.RuneError {
+		// (U+FFFD itself is a character: a decoding error is RuneError of size 1)
+		if size > 0 && size == runeSize && !(rune == utf8.RuneError && runeSize == 1) {
 			return py.Int(rune), nil
 		}
 	//case py.ByteArray:
